@@ -235,18 +235,31 @@ impl Connection {
 // the listener's connection (acceptor/connection.rs): a Begin the peer initiates
 //@@ type file=fe2o3-amqp/src/session/frame.rs kind=struct name=SessionFrame
 //@@ end
-pub enum SessionFrameBody { Begin(Begin), Other }
+pub enum SessionFrameBody { Begin(Begin), End(End), Other }
+/// `channel: impl Into<u16>` of SessionFrame::new: a bare u16 or an IncomingChannel
+pub trait ChanNo: Sized { spec fn no(self) -> u16; fn into_no(self) -> (r: u16) ensures r == self.no(); }
+impl ChanNo for u16 { open spec fn no(self) -> u16 { self } fn into_no(self) -> (r: u16) { self } }
+impl ChanNo for IncomingChannel { open spec fn no(self) -> u16 { self.0 } fn into_no(self) -> (r: u16) { self.0 } }
 impl SessionFrame {
-    pub fn new(channel: IncomingChannel, body: SessionFrameBody) -> (r: Self) ensures r.channel == channel.0, r.body == body { SessionFrame { channel: channel.0, body } }
+    pub fn new<C: ChanNo>(channel: C, body: SessionFrameBody) -> (r: Self) ensures r.channel == channel.no(), r.body == body { SessionFrame { channel: channel.into_no(), body } }
 }
+/// ghost trace of what the connection hands to which session: (the relay it was sent through, the frame)
+pub type RelayLog = Ghost<Seq<(SessionRelay, SessionFrame)>>;
 pub struct ChanSendError { pub _p: u8 }
 pub open spec fn not_found_session() -> ConnectionInnerError;
+#[verifier::external_body]
+pub fn not_supported_msg() -> (r: String) { unimplemented!() }
 impl ErrInto<ConnectionInnerError> for ConnectionInnerError { open spec fn conv(self) -> ConnectionInnerError { self } fn err_into(self) -> (r: ConnectionInnerError) { let e = self; assert(e == <ConnectionInnerError as ErrInto<ConnectionInnerError>>::conv(self)); e } }
 impl ErrInto<ConnectionInnerError> for ChanSendError { open spec fn conv(self) -> ConnectionInnerError { not_found_session() } #[verifier::external_body] fn err_into(self) -> (r: ConnectionInnerError) { unimplemented!() } }
 impl SessionRelay {
     /// `relay.send(frame).await` on the bounded channel to the session engine (not traced)
     #[verifier::external_body]
     pub fn send(&self, f: SessionFrame) -> (r: Result<(), ChanSendError>) { unimplemented!() }
+    /// the same send with the hand-over recorded (R9): Ok = the frame is in THIS relay's queue
+    #[verifier::external_body]
+    pub fn send_l(&self, f: SessionFrame, log: &mut RelayLog) -> (r: Result<(), ChanSendError>)
+        ensures r is Ok ==> final(log)@ == old(log)@.push((*self, f)), r is Err ==> final(log)@ == old(log)@,
+    { unimplemented!() }
 }
 /// the receiving half of a session's frame channel, handed to the application with the IncomingSession
 #[verifier::external_body]
@@ -299,6 +312,90 @@ impl ListenerConnection {
         old(self).connection.local_state is Opened && old(self).connection.session_by_incoming_channel@.contains_key(channel)
             ==> r is Err && final(self).connection.session_by_incoming_channel@ == old(self).connection.session_by_incoming_channel@
                 && final(self).session_listener.sent@ == old(self).session_listener.sent@,                                // [C11.route.channel-in-use-refused] (listener side) a begin on a channel that still designates a session is refused; the holder stays, nothing is offered to the application
+//@@ end
+}
+
+impl Connection {
+//@@ fn file=fe2o3-amqp/src/connection/mod.rs impl=`impl endpoint::Connection for Connection` name=on_incoming_begin
+//@@ qmark
+//@@ addparam log: &mut RelayLog
+//@@ subst `relay.send(sframe)` => `relay.send_l(sframe, log)` rule=R9
+//@@ subst `"Remotely initiazted session is not supported yet".to_string()` => `not_supported_msg()` rule=optional-R11
+//@@ spec
+    ensures
+        r is Ok ==> begin.remote_channel is Some && old(self).session_by_outgoing_channel@.contains_key(begin.remote_channel->Some_0 as usize)
+            && final(self).session_by_incoming_channel@ == old(self).session_by_incoming_channel@.insert(channel, old(self).session_by_outgoing_channel@[begin.remote_channel->Some_0 as usize])   // [C11.route.begin-maps] (client) the peer's answering begin binds the channel it arrived on to the session that was begun on remote-channel
+            && final(log)@ == old(log)@.push((old(self).session_by_outgoing_channel@[begin.remote_channel->Some_0 as usize], SessionFrame { channel: channel.0, body: SessionFrameBody::Begin(begin) })),   // [C11.route.begin-reaches-its-session] [C13.session.begin-reaches-its-session] ... and that begin is handed to exactly THAT session, unchanged
+        r is Err ==> final(log)@ == old(log)@,
+        begin.remote_channel is None ==> r is Err && final(self).session_by_incoming_channel@ == old(self).session_by_incoming_channel@,   // [C15.client.remote-begin-refused] a session the peer initiates towards a client is refused with an error (never a panic), and maps nothing
+        final(self).session_by_outgoing_channel == old(self).session_by_outgoing_channel,
+        final(self).local_state == old(self).local_state && final(self).agreed_channel_max == old(self).agreed_channel_max,
+//@@ end
+
+//@@ fn file=fe2o3-amqp/src/connection/mod.rs impl=`impl endpoint::Connection for Connection` name=on_incoming_end
+//@@ qmark
+//@@ addparam log: &mut RelayLog
+//@@ subst `relay.send(sframe)` => `relay.send_l(sframe, log)` rule=R9
+//@@ spec
+    ensures
+        !(old(self).local_state is Opened) ==> r is Err && final(self).session_by_incoming_channel@ == old(self).session_by_incoming_channel@ && final(log)@ == old(log)@,   // [C12.end-only-when-opened]
+        old(self).local_state is Opened && !old(self).session_by_incoming_channel@.contains_key(channel)
+            ==> r is Err && r->Err_0 is NotFound && final(self).session_by_incoming_channel@ == old(self).session_by_incoming_channel@ && final(log)@ == old(log)@,   // [C15.end.unknown-channel] an end on a channel that designates no session is an error (not a panic); nothing is handed to any session
+        old(self).local_state is Opened && old(self).session_by_incoming_channel@.contains_key(channel) ==> ({
+            &&& final(self).session_by_incoming_channel@ == old(self).session_by_incoming_channel@.remove(channel)                                                        // [C11.route.end-unmaps] the peer's end releases exactly the channel it arrived on (the peer may begin a new session there), and no other
+            &&& (r is Ok ==> final(log)@ == old(log)@.push((old(self).session_by_incoming_channel@[channel], SessionFrame { channel: channel.0, body: SessionFrameBody::End(end) })))   // [C11.route.end-reaches-its-session] [C13.session.end-reaches-its-session] [C14.end.reaches-its-session] the end (with the peer's error, if any) is handed to exactly the session that held the channel
+            &&& (r is Err ==> final(log)@ == old(log)@)
+        }),
+        final(self).session_by_outgoing_channel == old(self).session_by_outgoing_channel,
+        final(self).local_state == old(self).local_state && final(self).agreed_channel_max == old(self).agreed_channel_max,
+//@@ end
+
+//@@ fn file=fe2o3-amqp/src/connection/mod.rs impl=`impl endpoint::Connection for Connection` name=on_outgoing_begin
+//@@ subst `Frame::new(outgoing_channel, FrameBody::Begin(begin))` => `Frame::new(outgoing_channel.0, FrameBody::Begin(begin))` rule=R16
+//@@ spec
+    ensures
+        r == Ok::<Frame, ConnectionInnerError>(Frame { channel: outgoing_channel.0, body: FrameBody::Begin(begin) }),   // [C11.channel.begin-on-its-own-channel] a session's begin goes out on the channel allocated to that session, unchanged
+        *final(self) == *old(self),
+//@@ end
+
+//@@ fn file=fe2o3-amqp/src/connection/mod.rs impl=`impl endpoint::Connection for Connection` name=on_outgoing_end
+//@@ subst `Frame::new(channel, FrameBody::End(end))` => `Frame::new(channel.0, FrameBody::End(end))` rule=R16
+//@@ spec
+    ensures
+        r == Ok::<Frame, ConnectionInnerError>(Frame { channel: channel.0, body: FrameBody::End(end) }),   // [C11.channel.end-on-its-own-channel] [C13.session.end-frame] a session's end goes out on that session's channel, with the error it was given
+        *final(self) == *old(self),
+//@@ end
+
+//@@ fn file=fe2o3-amqp/src/connection/mod.rs impl=`impl endpoint::Connection for Connection` name=session_tx_by_incoming_channel
+//@@ ret Option<&SessionRelay>
+//@@ subst `.map(AsRef::as_ref)` => `` rule=R8
+//@@ spec
+    ensures
+        match r {
+            Some(relay) => old(self).session_by_incoming_channel@.contains_key(incoming_channel) && *relay == old(self).session_by_incoming_channel@[incoming_channel],
+            None => !old(self).session_by_incoming_channel@.contains_key(incoming_channel),
+        },                                                                                                                 // [C11.route.frame-to-session] a session frame is forwarded to the session bound to the channel it arrived on -- that one or none
+        *final(self) == *old(self),
+//@@ end
+}
+
+impl ListenerConnection {
+//@@ fn file=fe2o3-amqp/src/acceptor/connection.rs impl=`impl endpoint::Connection for ListenerConnection` name=on_outgoing_begin as=listener_on_outgoing_begin
+//@@ qmark
+//@@ ret Result<Frame, ConnectionInnerError>
+//@@ subst `.ok_or_else(|| { __E1 })` => `.ok_or(ConnectionInnerError::NotFound(None))` rule=R18
+//@@ subst `amqp::Frame` => `Frame` rule=optional-R11
+//@@ spec
+    ensures
+        begin.remote_channel is Some && !old(self).connection.session_by_outgoing_channel@.contains_key(outgoing_channel.0 as usize)
+            ==> r is Err && final(self).connection.session_by_incoming_channel@ == old(self).connection.session_by_incoming_channel@,
+        begin.remote_channel is Some && old(self).connection.session_by_outgoing_channel@.contains_key(outgoing_channel.0 as usize)
+            ==> final(self).connection.session_by_incoming_channel@ == old(self).connection.session_by_incoming_channel@.insert(IncomingChannel(begin.remote_channel->Some_0), old(self).connection.session_by_outgoing_channel@[outgoing_channel.0 as usize]),   // [C11.route.answering-begin-maps] the begin by which a listener answers a session the peer initiated binds the peer's channel to the relay of exactly the session that answers -- the one registered under the outgoing channel the begin goes out on
+        begin.remote_channel is None ==> final(self).connection.session_by_incoming_channel@ == old(self).connection.session_by_incoming_channel@,
+        r is Ok ==> r->Ok_0 == (Frame { channel: outgoing_channel.0, body: FrameBody::Begin(begin) }),                     // [C11.channel.begin-on-its-own-channel] (listener)
+        final(self).connection.session_by_outgoing_channel == old(self).connection.session_by_outgoing_channel,
+        final(self).connection.local_state == old(self).connection.local_state,
+        final(self).session_listener == old(self).session_listener,
 //@@ end
 }
 
